@@ -539,17 +539,32 @@ func (ma *ModAnalysis) calleeAt(fn *ssa.Function, cc *ssa.CallCommon, callee *ss
 func (ma *ModAnalysis) callee(callee *ssa.Function, mi *modInfo) {
 	ex := ma.ex
 	if callee.Pkg == nil || callee.Pkg != ex.pkg {
-		for _, v := range libModVars(ex, libName(callee)) {
+		ln := libName(callee)
+		for _, v := range libModVars(ex, ln) {
+			// constructors of in-memory buffers and readers initialise ghost state of the fresh object only
+			if (v == "RS" || v == "W" || v == "RU" || v == "RE") && (ln == "bytes.NewBuffer" || ln == "bytes.NewBufferString" || ln == "strings.NewReader" || ln == "bufio.NewReader" || ln == "bufio.NewReaderSize") {
+				mi.allocVars[v] = true
+				continue
+			}
 			mi.vars[v] = true
 		}
-		if libAllocates(libName(callee)) {
+		if libAllocates(ln) {
 			mi.allocates = true
 		}
 		return
 	}
 	key := ex.fnKey(callee)
 	if c, ok := ex.cs.Funcs[key]; ok && c.HasMod {
+		// locations of the form <parameter>.<field> are writes through that parameter: attributed at the call
+		// site (a fresh argument makes them allocation-only)
+		pw := ex.paramModLocs(c, callee)
 		for _, v := range ex.staticModVars(c, callee, callee.Signature) {
+			if idxs, isParam := pw[v]; isParam {
+				for _, i := range idxs {
+					mi.addParamWrite(i, v)
+				}
+				continue
+			}
 			mi.vars[v] = true
 		}
 		af, al := ma.AllocFields(callee)
@@ -946,4 +961,36 @@ func (ma *ModAnalysis) LoopObjMods(fr *Frame, li *loopInfo, vars []string) map[s
 
 func (ma *ModAnalysis) whyAll(fn *ssa.Function) string {
 	return ma.info(fn).why
+}
+
+// paramModLocs: state variables that the modifies clause of c names only as fields of parameters
+// (var -> parameter indices). A variable that is also named in any other form is left out.
+func (ex *Exec) paramModLocs(c *Contract, callee *ssa.Function) map[string][]int {
+	out := map[string][]int{}
+	if callee == nil {
+		return out
+	}
+	env := &Env{ex: ex, vars: map[string]*Val{}, cur: NewState(), old: NewState()}
+	idxOf := map[string]int{}
+	for i, p := range callee.Params {
+		env.vars[p.Name()] = &Val{T: "dummy_" + p.Name(), S: ex.w.SortOf(p.Type())}
+		idxOf["dummy_"+p.Name()] = i
+	}
+	bad := map[string]bool{}
+	func() {
+		defer func() { recover() }()
+		for _, mc := range c.Modifies {
+			for _, loc := range ex.resolveModLoc(mc.Expr, env) {
+				if i, ok := idxOf[loc.Obj]; ok && !loc.All {
+					out[loc.Var] = append(out[loc.Var], i)
+				} else {
+					bad[loc.Var] = true
+				}
+			}
+		}
+	}()
+	for v := range bad {
+		delete(out, v)
+	}
+	return out
 }
